@@ -476,7 +476,7 @@ def build_namespace(case, rec, cell):
                 d['teardown'] = [_make_teardown(rec, cell, n, t, case)]
             yield d
     return {'task_gen': task_gen,
-            # absolute: a DB handle that doit leaks (close() dying half-way: open finding unsavable-values) and that is
+            # absolute: a DB handle that doit leaks (close() dying half-way, as before 8fa62ea) and that is
             # finalised later must not write into the scratch directory of a LATER case (dbm.dumb keeps relative names)
             'DOIT_CONFIG': {'dep_file': os.path.abspath('depdb'), 'backend': case['backend'], 'verbosity': 0,
                             'reporter': PlantReporter}}
